@@ -733,6 +733,227 @@ pub fn case(seed: u64, idx: u64, out: &Path, verbose: bool) -> CaseOut {
     CaseOut { gallina: run.gallina, json, oracle_ok }
 }
 
+/// several saves of one loaded font: {access, insert, remove (also of an entry in error), save in
+/// place, save elsewhere, save again}, with refusals in the middle; stores with 0-2 entries in
+/// error and 5-15 good ones.  Every save is one model case and one oracle verdict; the store cell
+/// states are threaded through (a successful save leaves every cell loaded).
+pub fn history_case(seed: u64, idx: u64, out: &Path, verbose: bool) -> Vec<CaseOut> {
+    let mut r = Rng::new(seed.wrapping_mul(0x9E37_79B9_7F4A_7C15) ^ idx.wrapping_mul(0xD1B5_4A32_D192_ED03) ^ 0x4157);
+    let sb = fresh_sandbox(out, "sbh", idx);
+    let src = sb.join("src.ufo");
+    let mut rc = Recipe::random_valid(&mut r);
+    rc.data.clear();
+    rc.images.clear();
+    let nd = 5 + r.below(11);
+    for i in 0..nd {
+        let key = match i % 4 {
+            0 => format!("f{}.bin", i),
+            1 => format!("d{}/g{}.bin", i % 3, i),
+            2 => format!("n/e/s/t{}.dat", i),
+            _ => format!("com.example.k{}/v.plist", i),
+        };
+        rc.data.push((key, vec![b'D', i as u8, r.below(256) as u8]));
+    }
+    let ni = 5 + r.below(11);
+    for i in 0..ni {
+        let mut b = PNG.to_vec();
+        b.push(i as u8);
+        rc.images.push((format!("img{}.png", i), b));
+    }
+    build_font(&rc).0.save(&src).unwrap();
+    let mut notes: Vec<String> = vec![];
+    // entries in error: an image without the signature, a data file that vanishes after load
+    let nerr = r.below(3);
+    let mut vanish: Vec<String> = vec![];
+    for e in 0..nerr {
+        if r.chance(1, 2) {
+            std::fs::write(src.join(format!("images/bad{}.png", e)), b"GIF89a").unwrap();
+            notes.push(format!("images/bad{}.png is not a PNG", e));
+        } else {
+            let k = rc.data[r.below(rc.data.len() as u64) as usize].0.clone();
+            if !vanish.contains(&k) {
+                vanish.push(k);
+            }
+        }
+    }
+    let font = Font::load(&src).unwrap();
+    let shadow = Shadow::opened(&font, &comps("src.ufo"));
+    // what every tracked entry must hold after a successful save: the bytes on disk at load
+    let mut expect: std::collections::BTreeMap<(bool, String), Vec<u8>> = Default::default();
+    for k in shadow.data.keys() {
+        expect.insert((false, k.clone()), std::fs::read(src.join("data").join(k)).unwrap());
+    }
+    for k in shadow.images.keys() {
+        expect.insert((true, k.clone()), std::fs::read(src.join("images").join(k)).unwrap());
+    }
+    for k in &vanish {
+        std::fs::remove_file(src.join("data").join(k)).unwrap();
+        notes.push(format!("data/{} vanished after load", k));
+    }
+    let mut p = Prepared { font, shadow, groups_ok: true, info_valid: true, loaded_from: Some(comps("src.ufo")), preserve: BTreeSet::new(), notes };
+    let mut outs = vec![];
+    let mut last_target: Vec<String> = comps("src.ufo");
+    // half of the stores with entries in error follow the script "save (refused), repair, save again"
+    let script: Option<Vec<u64>> = if nerr > 0 && r.chance(1, 2) {
+        Some(if r.chance(1, 2) { vec![4, 2, 2, 4, 6] } else { vec![0, 4, 2, 2, 4] })
+    } else {
+        None
+    };
+    let nsteps = if script.is_some() { 5 } else { 3 + r.below(3) };
+    let mut saves = 0;
+    for step in 0..nsteps {
+        // what is in error right now (as far as the harness knows)
+        let in_error: Vec<(bool, String)> = expect
+            .keys()
+            .filter(|(img, k)| {
+                let f = src.join(if *img { "images" } else { "data" }).join(k);
+                let cell = if *img { p.shadow.images.get(k) } else { p.shadow.data.get(k) };
+                match cell {
+                    Some(CellS::Loaded(_)) => false,
+                    Some(CellS::Error) => true,
+                    _ => match std::fs::read(&f) {
+                        Ok(b) => *img && !is_png(&b),
+                        Err(_) => true,
+                    },
+                }
+            })
+            .cloned()
+            .collect();
+        let choice = match &script {
+            Some(sc) => sc[step as usize],
+            None => {
+                if step == nsteps - 1 || (step >= 1 && saves == 0) {
+                    4 + r.below(3)
+                } else {
+                    r.below(7)
+                }
+            }
+        };
+        let target_rel: Vec<String> = match choice {
+            0 => {
+                // access k entries
+                let keys: Vec<(bool, String)> = expect.keys().cloned().collect();
+                for (img, k) in keys {
+                    if r.chance(1, 3) {
+                        let mut sh = std::mem::take(&mut p.shadow);
+                        touch(&p.font, &mut sh, img, &k);
+                        p.shadow = sh;
+                    }
+                }
+                p.notes.push(format!("step {}: accessed some entries", step));
+                continue;
+            }
+            1 => {
+                let k = format!("new{}/x{}.bin", step, r.below(3));
+                let b = vec![b'N', step as u8];
+                if p.font.data.insert(PathBuf::from(&k), b.clone()).is_ok() {
+                    p.shadow.data.insert(k.clone(), CellS::Loaded(b.clone()));
+                    expect.insert((false, k.clone()), b);
+                    p.notes.push(format!("step {}: inserted data/{}", step, k));
+                }
+                continue;
+            }
+            2 | 3 => {
+                // remove: the entries in error first (the repair), else a random one
+                let victim = if !in_error.is_empty() && (choice == 2 || r.chance(1, 2)) {
+                    in_error[r.below(in_error.len() as u64) as usize].clone()
+                } else {
+                    let keys: Vec<(bool, String)> = expect.keys().cloned().collect();
+                    keys[r.below(keys.len() as u64) as usize].clone()
+                };
+                if victim.0 {
+                    p.font.images.remove(Path::new(&victim.1));
+                    p.shadow.images.remove(&victim.1);
+                } else {
+                    p.font.data.remove(Path::new(&victim.1));
+                    p.shadow.data.remove(&victim.1);
+                }
+                expect.remove(&victim);
+                p.notes.push(format!("step {}: removed {}/{}", step, if victim.0 { "images" } else { "data" }, victim.1));
+                continue;
+            }
+            4 => comps("src.ufo"),
+            5 => {
+                let t = comps("zone/t.ufo");
+                if !sb.join("zone/t.ufo").exists() && !sb.join("zone/t.ufo").is_symlink() {
+                    make_prior(&sb.join("zone/t.ufo"), prior_for(idx / 5 + step), &mut r);
+                }
+                t
+            }
+            _ => last_target.clone(),
+        };
+        saves += 1;
+        last_target = target_rel.clone();
+        let in_place = target_rel == comps("src.ufo");
+        let run = run_save(&p, out, idx * 8 + step, &sb, &target_rel);
+        let expect_ref = expected_refusal(&p, &run.before);
+        let mut why: Vec<String> = vec![];
+        if run.obs.1 == "PANIC" {
+            why.push(format!("Font::save panicked; the file system changed: {}", snap_diff(&run.before, &run.after).join(", ")));
+        }
+        if let Some(v) = expect_ref {
+            if run.obs.1 != v {
+                why.push(format!("expected refusal {} but the save returned {}", v, run.obs.1));
+            }
+            if run.before != run.after {
+                why.push(format!("refused save changed the file system: {}", snap_diff(&run.before, &run.after).join(", ")));
+            }
+        }
+        let mut preserved = 0;
+        if run.obs.1 == "Saved" {
+            let troot = target_rel.join("/");
+            for ((img, k), bytes) in &expect {
+                let rel = format!("{}/{}/{}", troot, if *img { "images" } else { "data" }, k);
+                match run.after.get(&rel) {
+                    Some(Some(b)) if b == bytes => preserved += 1,
+                    Some(Some(_)) => why.push(format!("{} does not hold the bytes it had at load / insertion", rel)),
+                    _ => why.push(format!("{} is tracked by the store but missing after the save", rel)),
+                }
+            }
+            // a successful save leaves every cell loaded
+            for ((img, k), bytes) in &expect {
+                if *img {
+                    p.shadow.images.insert(k.clone(), CellS::Loaded(bytes.clone()));
+                } else {
+                    p.shadow.data.insert(k.clone(), CellS::Loaded(bytes.clone()));
+                }
+            }
+        } else if expect_ref.is_none() && !["Cleanup", "CreateUfoDir"].contains(&run.obs.1.as_str()) {
+            why.push(format!("a valid font was not saved: {}", run.obs.1));
+        }
+        let oracle_ok = why.is_empty();
+        let mut json = String::new();
+        let _ = write!(
+            json,
+            "{{\"i\":{},\"history\":true,\"step\":{},\"kind\":4,\"prior\":\"History\",\"in_place\":{},\"expected_refusal\":{},\"obs\":{},\"oracle_ok\":{},\"why\":{},\"preserved\":{},\"loaded\":true,\"notes\":{},\"changed\":{}}}",
+            idx,
+            step,
+            in_place,
+            match expect_ref {
+                Some(v) => json_str(v),
+                None => "null".into(),
+            },
+            json_str(&run.obs.1),
+            oracle_ok,
+            serde_json::to_string(&why).unwrap(),
+            preserved,
+            serde_json::to_string(&p.notes).unwrap(),
+            run.before != run.after
+        );
+        if verbose {
+            println!("history {} step {}: save to {:?}; expected refusal {:?}; observed {}; {} store files verified", idx, step, target_rel, expect_ref, run.obs.1, preserved);
+            println!("notes: {:?}", p.notes);
+            println!("oracle: {}", if oracle_ok { "ok".to_string() } else { why.join("; ") });
+        }
+        outs.push(CaseOut { gallina: run.gallina, json, oracle_ok });
+        if run.obs.1 == "PANIC" {
+            break; // nothing is claimed about a font after a panic
+        }
+    }
+    let _ = std::fs::remove_dir_all(&sb);
+    outs
+}
+
 pub fn main(a: &Args) {
     std::fs::create_dir_all(&a.out).unwrap();
     if let Some(rp) = &a.replay {
@@ -741,6 +962,12 @@ pub fn main(a: &Args) {
         let mut it = t.split_whitespace();
         let seed: u64 = it.next().unwrap().parse().unwrap();
         let idx: u64 = it.next().unwrap().parse().unwrap();
+        if it.next() == Some("h") {
+            for c in history_case(seed, idx, &a.out, true) {
+                println!("{}", c.json);
+            }
+            return;
+        }
         let c = case(seed, idx, &a.out, true);
         println!("{}", c.json);
         return;
@@ -749,6 +976,14 @@ pub fn main(a: &Args) {
     let mut g = String::new();
     let mut j = String::new();
     for i in 0..n {
+        if i % 5 == 0 {
+            for c in history_case(a.seed, i, &a.out, false) {
+                g.push_str(&c.gallina);
+                g.push('\n');
+                j.push_str(&c.json);
+                j.push('\n');
+            }
+        }
         let c = case(a.seed, i, &a.out, false);
         g.push_str(&c.gallina);
         g.push('\n');
